@@ -95,9 +95,22 @@ class Db:
     """The committed state of one packs.idx file (shared by all sessions on it)."""
 
     def __init__(self, vc, hint='db'):
-        self.table = Table.fresh(hint)
+        self._table = Table.fresh(hint)
         self.commits = 0
         self.open_connections = []
+
+    @property
+    def table(self):
+        # same rule as for the world: a quantified clause must close over the Table value of the state it is stated in
+        vc = cur()
+        if vc is not None and getattr(vc, '_instantiating', False):
+            from .engine import CheckerError
+            raise CheckerError('a quantified clause reads the live index while being instantiated (capture db.table first)')
+        return self._table
+
+    @table.setter
+    def table(self, t):
+        self._table = t
 
 
 def db_of_world(w, vc=None):
@@ -510,6 +523,9 @@ class ResultList:
         else:
             full = (self.n == SInt.of(q.lim))
             vc.assume(Forall(lambda k: implies(b_and(b_not(full), res.matches(I, k)), self.keys.has(k))))
+        # a non-empty list has an element
+        wk = vc.key(SStr.fresh('somerow'))
+        vc.assume(implies(self.n > 0, b_and(self.keys.has(wk), res.matches(I, wk))))
         self.last_key = None
         if q.order is not None:
             # the list holds the n smallest matching rows in ascending order of the ORDER BY column
